@@ -1259,6 +1259,38 @@ fn sub_expr_boundaries(_tier: Tier) -> Sub {
     })
 }
 
+/// Branches whose displacement fits 16 bits in the source but not after the converter has
+/// re-encoded the operations it jumps over (DW_OP_const1u 0x80 is 2 bytes, the writer's
+/// DW_OP_constu 0x80 is 3): conversion must fail with an error or keep the branch on target.
+fn sub_expr_long_branches(_tier: Tier) -> Sub {
+    let counts: Vec<usize> = vec![100, 10_922, 10_923, 12_000];
+    let cfgs: Vec<Cfg> = vec![Cfg { version: 4, fmt64: false, asz: 8, big: false }, Cfg { version: 5, fmt64: true, asz: 4, big: true }];
+    let len = counts.len() as u64 * 4 * cfgs.len() as u64;
+    Sub::new("expression-long-branches", len, &format!("one DW_OP_skip / DW_OP_bra forward over, or backward to the start of, a run of N x DW_OP_const1u 0x80 followed by the same number of DW_OP_drop-free no-ops, N in {:?} (the source displacement 2N fits 16 bits, the re-encoded 3N does not from N = 10923 on) x 2 configs, in DW_AT_location", counts), move |ctx, i| {
+        let mut x = Mix(i);
+        let back = x.flag();
+        let bra = x.flag();
+        let cfg = *x.pick(&cfgs);
+        let n = counts[x.take(counts.len() as u64) as usize];
+        // forward: [branch -> end] c c c ... ; backward: c c c ... [branch -> op 0]
+        let mut ops: Vec<Op> = vec![];
+        if bra {
+            ops.push(Op::Lit(1));
+        }
+        let run: Vec<Op> = (0..n).map(|_| Op::Const1u(0x80)).collect();
+        if back {
+            let first = ops.len();
+            ops.extend(run);
+            ops.push(if bra { Op::Bra(Br::ToOp(first)) } else { Op::Skip(Br::ToOp(first)) });
+        } else {
+            let total = ops.len() + 1 + n;
+            ops.push(if bra { Op::Bra(Br::ToOp(total)) } else { Op::Skip(Br::ToOp(total)) });
+            ops.extend(run);
+        }
+        run_expr_case(ctx, cfg, ops, false, "exprlb");
+    })
+}
+
 /// Operand boundary values of every operand-carrying call frame instruction through
 /// FrameTable::from and back.
 fn cfa_boundary_insns() -> Vec<Vec<Cfa>> {
@@ -1453,7 +1485,7 @@ fn sub_cfi_params(_tier: Tier) -> Sub {
 }
 
 pub fn subs(tier: Tier) -> Vec<Sub> {
-    let mut v = vec![sub_line(tier, false, false), sub_line(tier, true, false), sub_line_hdr(tier), sub_lists(tier), sub_expr(tier), sub_unit_kinds(tier), sub_cfi(tier, false, false), sub_cfi(tier, true, false), sub_cfi(tier, false, true), sub_cfi_params(tier), sub_cfi_advance(tier), sub_cfi_boundaries(tier), sub_expr_boundaries(tier), sub_line_regs(tier), sub_line_schedules(tier)];
+    let mut v = vec![sub_line(tier, false, false), sub_line(tier, true, false), sub_line_hdr(tier), sub_lists(tier), sub_expr(tier), sub_unit_kinds(tier), sub_cfi(tier, false, false), sub_cfi(tier, true, false), sub_cfi(tier, false, true), sub_cfi_params(tier), sub_cfi_advance(tier), sub_cfi_boundaries(tier), sub_expr_boundaries(tier), sub_expr_long_branches(tier), sub_line_regs(tier), sub_line_schedules(tier)];
     if tier == Tier::Thorough {
         v.push(sub_line(tier, false, true));
     }
